@@ -13,11 +13,17 @@ BUDGET_S = {'quick': 60, 'thorough': 400}
 BOUNDS = {
     'quick': 'scenarios {input read, output integrity, output read back} x {HASH, METADATA} x {top level, nested in a '
              'subbuild, nested in a build_file}; histories B.M.B; new (content id, mtime) of the changed file are '
-             'unconstrained integers (all four changed/unchanged combinations are regions of one query)',
+             'unconstrained integers (all four changed/unchanged combinations are regions of one query); plus, for input read and '
+             'output integrity under HASH, the chunked content model: the library\'s read(n) loop receives pieces, file sizes from '
+             '{n-1, n, n+1, 2n, 2n+1} (n = the chunk size the code itself asks for), a content differs from every other one in '
+             'exactly one byte at a symbolic offset POS(c) in [0, SZ(c)), a digest of a prefix of k bytes is a function of '
+             '(k, POS(c) < k, c if POS(c) < k)',
     'thorough': 'plus three-build histories B.M.B.M.B and both comparison modes for writer and reader in the read-back scenario',
 }
-ASSUMPTIONS = ['equal content ids have equal sizes (SZ is a function of the content id); nothing else about sizes or mtimes']
-WITNESSES = {'quick': ['reexecuted', 'not-reexecuted'], 'thorough': ['reexecuted', 'not-reexecuted']}
+ASSUMPTIONS = ['equal content ids have equal sizes (SZ is a function of the content id); nothing else about sizes or mtimes',
+               'chunked families: contents that differ in more than one byte, sizes beyond 2n+1 and digest collisions (SHA-256 '
+               'is treated as injective) are outside the claim']
+WITNESSES = {'quick': ['reexecuted', 'not-reexecuted', 'chunked-read'], 'thorough': ['reexecuted', 'not-reexecuted']}
 
 NESTS = ['top', 'in-sb', 'in-bf']
 MODES = ['METADATA', 'HASH']
@@ -25,7 +31,10 @@ MODES = ['METADATA', 'HASH']
 
 def families(tier):
     fams = [{'name': 'input', 'params': {'builds': 2}}, {'name': 'integrity', 'params': {'builds': 2}},
-            {'name': 'readback', 'params': {'builds': 2}}, {'name': 'readback', 'params': {'builds': 2, 'tamper': True}}]
+            {'name': 'readback', 'params': {'builds': 2}}, {'name': 'readback', 'params': {'builds': 2, 'tamper': True}},
+            # chunked content model: the library's read(n) loop sees pieces, digests of prefixes are distinguished
+            {'name': 'input', 'params': {'builds': 2, 'chunked': True}},
+            {'name': 'integrity', 'params': {'builds': 2, 'chunked': True}}]
     if tier == 'thorough':
         fams += [{'name': 'input', 'params': {'builds': 3}}, {'name': 'integrity', 'params': {'builds': 3}},
                  {'name': 'readback', 'params': {'builds': 3}}, {'name': 'readback', 'params': {'builds': 3, 'tamper': True}}]
@@ -53,11 +62,13 @@ def _meta(w, path):
 
 
 def harness(eng, fam, P):
-    mode = MODES[eng.choose('mode', 2)]
-    nest = NESTS[eng.choose('nest', 3)]
+    chunked = bool(P.get('chunked'))
+    mode = 'HASH' if chunked else MODES[eng.choose('mode', 2)]
+    nest = 'top' if chunked else NESTS[eng.choose('nest', 3)]
     rk = 'read_m' if mode == 'METADATA' else 'read_h'
     w = World(eng, [], fixed={'in': 'D', 'in/x': 'F', 'o': 'D'}, sandbox=getattr(eng, 'sandbox', None))
     w.distinct_mtimes = False
+    w.env.chunked = chunked
     try:
         if fam == 'input':
             target, watch = 'r', w.p('in/x')
@@ -97,6 +108,8 @@ def harness(eng, fam, P):
             if fam == 'readback' and impl[0] == 'ok' and mode == 'HASH':
                 # the value seen by the reader is the current content
                 eng.check('C13.readback-value', L.eq(_find_read(impl[1]), new[0]), (fam, mode, nest, 'value'))
+        if chunked and w.env.real is False and w.env.chunk_sizes:
+            eng.witness('chunked-read')
         eng.sample({'family': fam, 'mode': mode, 'nest': nest, 'program': show(body)})
     finally:
         w.close()
